@@ -70,8 +70,8 @@ macro_rules! impl_for_ca {
 
     (vec $real: ty => $($ForType: ty),*) => {
         $(impl Vec1<Option<$real>> for $ForType {
-            type Uninit = $ForType;
-            type UninitRefMut<'a> = &'a mut $ForType;
+            type Uninit = PlUninit<$real>;
+            type UninitRefMut<'a> = &'a mut PlUninit<$real>;
 
             #[inline]
             fn collect_from_iter<I: Iterator<Item = Option<$real>>>(iter: I) -> Self {
@@ -87,7 +87,7 @@ macro_rules! impl_for_ca {
             #[inline]
             fn uninit(len: usize) -> Self::Uninit
             {
-                ChunkedArray::full_null("".into(), len)
+                PlUninit(vec![None; len])
             }
 
             #[inline]
@@ -119,31 +119,43 @@ macro_rules! impl_for_ca {
             impl_for_ca!(view_mut $real=>ChunkedArray<$type>);
             impl_for_ca!(vec $real=>ChunkedArray<$type>);
 
-            impl UninitVec<Option<$real>> for ChunkedArray<$type>
+            impl UninitVec<Option<$real>> for PlUninit<$real>
             {
                 type Vec = ChunkedArray<$type>;
 
-                #[inline(always)]
+                #[inline]
                 unsafe fn assume_init(self) -> Self::Vec {
-                    self
+                    self.0.into_iter().collect()
                 }
 
                 #[inline]
-                unsafe fn uset(&mut self, _idx: usize, _v: Option<$real>) {
-                    unimplemented!("polars backend do not support set in given index");
+                unsafe fn uset(&mut self, idx: usize, v: Option<$real>) {
+                    unsafe { *self.0.get_unchecked_mut(idx) = v };
                 }
             }
 
 
-            impl UninitRefMut<Option<$real>> for &mut ChunkedArray<$type> {
+            impl UninitRefMut<Option<$real>> for &mut PlUninit<$real> {
                 #[inline]
-                unsafe fn uset(&mut self, _idx: usize, _v: Option<$real>) {
-                    unimplemented!("polars backend do not support set in given index");
+                unsafe fn uset(&mut self, idx: usize, v: Option<$real>) {
+                    unsafe { *self.0.get_unchecked_mut(idx) = v };
                 }
             }
 
         )*
     };
+}
+
+/// Output buffer of the polars backend. A `ChunkedArray` cannot be written in place, so the
+/// slots set by the fast-path rolling drivers are gathered here (all null to begin with) and
+/// turned into a `ChunkedArray` by `assume_init`.
+pub struct PlUninit<T>(Vec<Option<T>>);
+
+impl<T> GetLen for PlUninit<T> {
+    #[inline]
+    fn len(&self) -> usize {
+        self.0.len()
+    }
 }
 
 impl<T: PolarsDataType> GetLen for ChunkedArray<T> {
